@@ -778,6 +778,13 @@ func c18PanicPreconditions(c *Ctx, scope []*ssa.Function) map[string]bool {
 						ok, why = true, "result of a successful "+fname(g.Call.StaticCallee())
 					}
 				}
+				if !ok {
+					if ok2, w := filledNonNil(f, arg, call); ok2 {
+						ok, why = true, w
+					} else {
+						why = "the argument is not provably non-nil (" + w + ")"
+					}
+				}
 				construct := fmt.Sprintf("AddCert #%d receives a non-nil certificate", siteOrdinalByID(f, call))
 				c.Check(ok, "B-PANIC", fname(f), construct, why, "CertPool.AddCert panics for a nil certificate: "+why, call.Pos())
 				if !ok {
